@@ -45,8 +45,6 @@ Definition ms_m_init : ms_mstate :=
   {| ms_m_now := 0; ms_m_enabled := true; ms_m_assocs := []; ms_m_ring := []; ms_m_phase := MsPDown;
      ms_m_systime := None |}.
 
-Inductive ms_ukind := MsUKRead (m : N) | MsUKLink | MsUKEmpty | MsUKTsync (p : N).
-
 Inductive ms_rx := MsRxBad | MsRxResp (f : ms_rxfrag).
 
 Inductive ms_event :=
@@ -220,7 +218,7 @@ Definition ms_schedule (st : ms_mstate) : ms_mstate * list ms_obs :=
 (* MasterSession::reset: every association, in address order, fails its queued requests and
    re-arms its start-up tasks *)
 Definition ms_fail_queue (now : ms_time) (e : ms_err) (a : ms_assoc) : list ms_obs :=
-  concat (map (fun t => snd (ms_task_error now t e false a)) (ms_a_queue a)).
+  concat (map (fun r => snd (ms_task_error now (ms_user_task (fst r) (snd r)) e false a)) (ms_a_queue a)).
 
 Definition ms_reset_all (st : ms_mstate) (e : ms_err) : ms_mstate * list ms_obs :=
   (ms_set_assocs st (map ms_assoc_reset (ms_m_assocs st)),
@@ -445,19 +443,13 @@ Definition ms_after_message (st : ms_mstate) : ms_mstate * list ms_obs :=
   | _ => (st, [])
   end.
 
-Definition ms_user_task (tok : N) (k : ms_ukind) : ms_task :=
-  match k with
-  | MsUKRead m => MsTUserRead (N.land m 15) tok
-  | MsUKLink => MsTLink (Some tok)
-  | MsUKEmpty => MsTEmpty tok
-  | MsUKTsync p => MsTTimeSync (ms_tsync_start_state p) (Some tok)
-  end.
-
-Definition ms_queue_task (now : ms_time) (is_connected : bool) (t : ms_task) (a : ms_assoc) : ms_assoc * list ms_obs :=
+Definition ms_queue_task (now : ms_time) (is_connected : bool) (tok : N) (k : ms_ukind) (a : ms_assoc)
+  : ms_assoc * list ms_obs :=
   if is_connected then
-    if Nat.ltb (length (ms_a_queue a)) (ms_c_maxq (ms_a_cfg a)) then (ms_set_queue a (ms_a_queue a ++ [t]), [])
-    else ms_task_error now t MsETooManyRequests false a
-  else ms_task_error now t MsENoConnection false a.
+    if Nat.ltb (length (ms_a_queue a)) (ms_c_maxq (ms_a_cfg a))
+    then (ms_set_queue a (ms_a_queue a ++ [(tok, k)]), [])
+    else ms_task_error now (ms_user_task tok k) MsETooManyRequests false a
+  else ms_task_error now (ms_user_task tok k) MsENoConnection false a.
 
 Definition ms_add_poll (now : ms_time) (period : Z) (m : N) (a : ms_assoc) : ms_assoc * list ms_obs :=
   (ms_set_polls a (ms_a_polls a ++ [{| ms_p_id := ms_a_poll_id a; ms_p_mask := N.land m 15; ms_p_period := period;
@@ -485,7 +477,7 @@ Definition ms_mstep (fuel : nat) (st : ms_mstate) (ev : ms_event) : ms_mstate * 
           let '(st2, o) := ms_after_message st1 in (st2, MsOAssoc (ms_m_now st) addr c :: o)
       end
   | MsEUser a tok k =>
-      let '(st1, o) := ms_update_assoc st a (ms_queue_task (ms_m_now st) (ms_connected st) (ms_user_task tok k)) in
+      let '(st1, o) := ms_update_assoc st a (ms_queue_task (ms_m_now st) (ms_connected st) tok k) in
       let '(st2, o2) := ms_after_message st1 in (st2, o ++ o2)
   | MsEAddPoll a period m =>
       let '(st1, o) := ms_update_assoc st a (ms_add_poll (ms_m_now st) period m) in
